@@ -59,6 +59,15 @@ pub fn dec_calls() -> usize {
 pub fn calls() -> usize {
     unsafe { TAB.n }
 }
+/// Rewind the call counter to an earlier value (used when mutually exclusive branches of a
+/// case split each continue from the same table prefix, so the counter stays concrete).
+#[allow(static_mut_refs)]
+pub fn set_calls(n: usize, nd: usize) {
+    unsafe {
+        TAB.n = n;
+        TAB.nd = nd;
+    }
+}
 /// Input block (x side) of call `i`.
 #[allow(static_mut_refs)]
 pub fn call_x(i: usize) -> [u8; MAXB] {
